@@ -13,6 +13,7 @@ from .shared_speed_logistic import SharedSpeedLogisticModel
 __all__ = [
     "ModelName",
     "model_factory",
+    "get_model_name",
 ]
 
 
@@ -26,6 +27,23 @@ class ModelName(str, Enum):
     LME = "lme"
     CONSTANT = "constant"
     MIXTURE_LOGISTIC = "mixture_logistic"
+
+
+def get_model_name(model: BaseModel) -> Optional[ModelName]:
+    """Return the name under which `model_factory` builds models of this class (None if unknown)."""
+    model_classes = {
+        ModelName.JOINT: JointModel,
+        ModelName.LOGISTIC: LogisticModel,
+        ModelName.LINEAR: LinearModel,
+        ModelName.SHARED_SPEED_LOGISTIC: SharedSpeedLogisticModel,
+        ModelName.LME: LMEModel,
+        ModelName.CONSTANT: ConstantModel,
+        ModelName.MIXTURE_LOGISTIC: LogisticMultivariateMixtureModel,
+    }
+    for model_name, model_class in model_classes.items():
+        if type(model) is model_class:
+            return model_name
+    return None
 
 
 def model_factory(
